@@ -49,24 +49,26 @@ type e1cfg struct {
 	name    string
 	trie    bool
 	pool    []string // transactions of the alphabet
-	maxList int      // longest explicit block
-	triples []string // pool for blocks of exactly 3 transactions ("" = none)
+	maxList int      // longest explicit block (all ordered lists with repetition up to this length)
 	depth   int
 }
 
 func e1configs(quick bool) []e1cfg {
+	small := []string{"s1", "s1x", "kk", "a0", "a1"}
+	medium := []string{"s1", "s1x", "kk", "s2", "s12", "a0", "a1", "u0"}
 	if quick {
 		return []e1cfg{
-			{name: "flat", trie: false, pool: []string{"s1", "s1x", "kk", "s2", "s12", "a0", "a1", "u0"}, maxList: 2, depth: 2},
-			{name: "flat/deep", trie: false, pool: []string{"s1", "s1x", "kk", "a0", "a1"}, maxList: 2, depth: 3},
+			{name: "flat", trie: false, pool: medium, maxList: 2, depth: 2},
+			{name: "flat/deep", trie: false, pool: small, maxList: 2, depth: 3},
 		}
 	}
 	return []e1cfg{
-		{name: "flat", trie: false, pool: []string{"s1", "s1x", "s1m", "s1a", "kk", "s2", "s12", "a0", "a1", "a2", "a0x", "u0", "u1", "c0", "k0"}, maxList: 2,
-			triples: []string{"s1", "s1x", "kk", "s2", "s12", "a0", "a1", "a2", "u0"}, depth: 2},
-		{name: "flat/deep", trie: false, pool: []string{"s1", "s1x", "kk", "s2", "s12", "a0", "a1", "u0"}, maxList: 2, depth: 3},
-		{name: "trie", trie: true, pool: []string{"s1", "s1x", "kk", "s2", "s12", "a0", "a1", "u0"}, maxList: 2, depth: 2},
-		{name: "trie/deep", trie: true, pool: []string{"s1", "s1x", "kk", "a0", "a1"}, maxList: 2, depth: 3},
+		{name: "flat/wide", trie: false, pool: []string{"s1", "s1x", "s1m", "s1a", "kk", "s2", "s12", "a0", "a1", "a2", "a0x", "u0", "u1", "c0", "k0"}, maxList: 2, depth: 2},
+		{name: "flat/triples", trie: false, pool: []string{"s1", "s1x", "kk", "s2", "a0", "a1"}, maxList: 3, depth: 2},
+		{name: "flat/deep", trie: false, pool: medium, maxList: 2, depth: 3},
+		{name: "flat/deeper", trie: false, pool: small, maxList: 2, depth: 4},
+		{name: "trie", trie: true, pool: medium, maxList: 2, depth: 2},
+		{name: "trie/deep", trie: true, pool: small, maxList: 2, depth: 3},
 	}
 }
 
@@ -76,22 +78,18 @@ func (c *e1cfg) ops() []e1op {
 		out = append(out, e1op{opAdd, []string{t}})
 	}
 	out = append(out, e1op{kind: opMine}, e1op{kind: opRestart})
-	for _, a := range c.pool {
-		out = append(out, e1op{opBlock, []string{a}})
-	}
-	if c.maxList >= 2 {
-		for _, a := range c.pool {
-			for _, b := range c.pool {
-				out = append(out, e1op{opBlock, []string{a, b}})
+	lists := [][]string{{}}
+	for l := 1; l <= c.maxList; l++ {
+		var next [][]string
+		for _, p := range lists {
+			for _, t := range c.pool {
+				next = append(next, append(append([]string{}, p...), t))
 			}
 		}
-	}
-	for _, a := range c.triples {
-		for _, b := range c.triples {
-			for _, d := range c.triples {
-				out = append(out, e1op{opBlock, []string{a, b, d}})
-			}
+		for _, x := range next {
+			out = append(out, e1op{opBlock, x})
 		}
+		lists = next
 	}
 	return out
 }
